@@ -569,7 +569,11 @@ func parse(expr string, namespaces map[string]string) node {
 	r.nextChar()
 	r.nextItem()
 	p := &parser{r: r, namespaces: namespaces}
-	return p.parseExpression(nil)
+	n := p.parseExpression(nil)
+	if r.typ != itemEOF {
+		panic(fmt.Sprintf("%s has an invalid token", r.text))
+	}
+	return n
 }
 
 // rootNode holds a top-level node of tree.
